@@ -8,8 +8,9 @@ for id in $ids; do
   [ -f "seeded/$id/patch.diff" ] || continue
   if ! git -C "$repo" apply --check "$PWD/seeded/$id/patch.diff" 2>/dev/null; then echo "$id: patch does not apply"; continue; fi
   git -C "$repo" apply "$PWD/seeded/$id/patch.diff"
-  if [ -f "harness/$(echo $id | tr A-Z a-z).py" ]; then
-    out=$(./check "$id" quick 2>&1 | tail -1)
+  prop=$(echo "$id" | cut -c1-3)                      # C16b -> C16 (second-round seeds)
+  if [ -f "harness/$(echo $prop | tr A-Z a-z).py" ]; then
+    out=$(./check "$prop" quick 2>&1 | tail -1)
     echo "$id: $out" | sed 's/evaluations.*failures/…/' 
   else
     echo "$id: no check yet"
